@@ -838,7 +838,8 @@ def c12(obs, act, viols, probes):
           if beh['kind'] == 'ret':
             want = 'CONTINUE' if beh['val'] == 'NONE' else beh['val']
           elif beh['kind'] == 'raise':
-            want = 'EXC:' + beh['exc']
+            # (a SystemExit ends the phase thread without an outcome: reported as killed)
+            want = 'KILLED' if beh['exc'] == 'SystemExit' else 'EXC:' + beh['exc']
           if want is not None and kind != want and not (
               kind.startswith('EXC:') and (want == 'FAIL_SUBTEST' or beh['kind'] == 'junk')) and not (
               kind == 'STOP' and ph['opts']['stop_on_measurement_fail']) and not (
